@@ -111,6 +111,10 @@ namespace sqf::parser::sqf
             {
                 if ((char)std::tolower(*it) != against[i]) { return 0; }
             }
+            if (static_cast<size_t>(it - start) < len)
+            { // input ended inside the keyword
+                return 0;
+            }
             if (it < m_end && ((char)std::tolower(*it) >= 'a' && (char)std::tolower(*it) <= 'z'))
             {
                 return 0;
